@@ -60,9 +60,19 @@ fn num(tok: &str) -> Num {
 
 /// ICCMA'23 format: `p af N`, then `i j` lines, `#` comment lines (column 0), nothing after a blank line.
 pub fn ref_iccma(data: &[u8]) -> RefOutcome {
+    let lossy;
     let s = match std::str::from_utf8(data) {
         Ok(s) => s,
-        Err(_) => return RefOutcome::Unspecified("invalid UTF-8", None),
+        Err(_) => {
+            // Bytes that are not UTF-8: the reader may refuse the file for that alone. If it accepts it, it
+            // must have read ALL of it: the natural reading is that of the text with the offending bytes replaced
+            // (U+FFFD); a text that is ill-formed in one of the listed ways stays ill-formed.
+            lossy = String::from_utf8_lossy(data).into_owned();
+            return match ref_iccma(lossy.as_bytes()) {
+                RefOutcome::Accept(g) => RefOutcome::Unspecified("invalid UTF-8", Some(g)),
+                other => other,
+            };
+        }
     };
     let mut unspec: Option<&'static str> = None;
     let mut n: Option<u64> = None;
@@ -210,9 +220,19 @@ fn apx_line(l: &str) -> Option<(bool, Vec<String>, bool)> {
 
 /// Aspartix format: `arg(x).` lines then `att(x,y).` lines; blank lines anywhere.
 pub fn ref_apx(data: &[u8]) -> RefOutcome {
+    let lossy;
     let s = match std::str::from_utf8(data) {
         Ok(s) => s,
-        Err(_) => return RefOutcome::Unspecified("invalid UTF-8", None),
+        Err(_) => {
+            // Bytes that are not UTF-8: the reader may refuse the file for that alone. If it accepts it, it
+            // must have read ALL of it: the natural reading is that of the text with the offending bytes replaced
+            // (U+FFFD); a text that is ill-formed in one of the listed ways stays ill-formed.
+            lossy = String::from_utf8_lossy(data).into_owned();
+            return match ref_apx(lossy.as_bytes()) {
+                RefOutcome::Accept(g) => RefOutcome::Unspecified("invalid UTF-8", Some(g)),
+                other => other,
+            };
+        }
     };
     let mut unspec: Option<&'static str> = None;
     let mut args: Vec<String> = vec![];
